@@ -69,8 +69,10 @@ def run(tier):
                 rec.update(accepted=True, digest1=itn.s(optrun.digest(t1)), digest2=itn.s(optrun.digest(t2)),
                            digest_again=itn.s(optrun.digest(t1b)),
                            proj1=itn.value(project.project(d1)), proj2=itn.value(project.project(d2)))
-                if len(other) < (60 if quick else 1500):
-                    other.append((rec, itn, t1, kw))
+                # candidates for the second interpreter: option sets that reorder keys first (their result must not depend
+                # on hash seeds), documents with several block-valued keys first
+                weight = (2 if o["separate_complex_types"] else 0) + (1 if t1.count("END") >= 3 else 0)
+                other.append((weight, len(other), rec, itn, t1, kw))
             except Exception as ex:  # noqa: BLE001
                 # a document that cannot be formatted / re-read at all is C01's and C06's business
                 t1 = t2 = None
@@ -79,8 +81,10 @@ def run(tier):
             meta[rec["tid"]] = (text, o, t1, t2)
             ck.nontrivial(rec["tid"])
     # second interpreter, different hash seed: re-format pass1
-    digs = optrun.other_process([(t1, kw) for (_, _, t1, kw) in other])
-    for (rec, itn, t1, kw), dg in zip(other, digs):
+    other.sort(key=lambda x: (-x[0], x[1]))
+    other = other[:(120 if quick else 3000)]
+    digs = optrun.other_process([(t1, kw) for (_, _, _, _, t1, kw) in other])
+    for (_, _, rec, itn, t1, kw), dg in zip(other, digs):
         rec["digest_other"] = itn.s(dg)
     def canary(r):
         r["digest2"] = r["digest1"] + 1000
